@@ -147,18 +147,20 @@ RETCODE adfCreateHdFile ( struct AdfDevice * const dev,
         (*adfEnv.eFct)("adfCreateHdFile : dev==NULL");
         return RC_ERROR;
     }
-    dev->volList = (struct AdfVolume **) malloc (sizeof(struct Volume *));
-    if (!dev->volList) { 
+    /* the device keeps its volume list until the new volume exists */
+    struct AdfVolume ** const volList = (struct AdfVolume **) malloc (sizeof(struct AdfVolume *));
+    if ( ! volList ) {
                 (*adfEnv.eFct)("adfCreateHdFile : unknown device type");
         return RC_ERROR;
     }
 
-    dev->volList[0] = adfCreateVol( dev, 0L, dev->cylinders, volName, volType );
-    if (dev->volList[0]==NULL) {
-        free(dev->volList);
+    volList[0] = adfCreateVol( dev, 0L, dev->cylinders, volName, volType );
+    if ( volList[0] == NULL ) {
+        free ( volList );
         return RC_ERROR;
     }
 
+    dev->volList = volList;
     dev->nVol = 1;
     dev->devType = DEVTYPE_HARDFILE;
 
